@@ -21,8 +21,8 @@ func init() {
 	register(&Prop{
 		ID:       "C13",
 		Category: "model_checking",
-		Rule: "first life: a stream in {70 KB text, 300 B, a stream ending in a corrupt-input error, a truncated stream} x read history in {nothing read, 1 byte, 10 bytes, all but the last byte, to the end/error} x Read size {1 MiB, 7}; then Reset(second source [, dictionary]); " +
-			"second life: every stream of the short corpus, malformed streams whose back-references reach 1, 2, 100 and 32768 bytes before their own start, containers of the same kind, and for zlib every combination {first stream with/without dictionary} x {second with/without}; flate, gzip (also member stepping), zlib; second source plain or a 64-byte bufio; " +
+		Rule: "first life: a stream in {70 KB text, 300 B, a stream ending in a corrupt-input error, a truncated stream, streams cut inside a dynamic header / inside a stored block's length field / inside its payload, a 70 KB stored stream} x read history in {nothing read, 1 byte, 10 bytes, all but the last byte, to the end/error} x Read size {1 MiB, 7}; then Reset(second source [, dictionary]); " +
+			"second life: every stream of the short corpus, malformed streams whose back-references reach 1, 2, 100 and 32768 bytes before their own start, containers of the same kind, and for zlib every combination {first stream with/without dictionary} x {second with/without}; flate, gzip (also member stepping), zlib; second source plain, a 64-byte bufio, one byte per call, or one byte per call through a 16-byte bufio; " +
 			"oracle: bytes and kind of error of the second life identical to a fresh Reader on the same input; non-trivial = the first life decoded at least one byte",
 		Assumptions: []string{"a freshly constructed Reader is the reference model"},
 		Quick:       TierSpec{MaxDev: -1, Shards: 4, ShardDepth: 3, BudgetS: 150},
@@ -74,7 +74,12 @@ func c13Harness(cfg *Cfg) func(x *mc.Exec) {
 	s300 := stdDeflate(pieces.Text(300, cfg.Seed), 6)
 	corrupt := append([]byte{}, s70...)
 	corrupt[len(corrupt)/2] ^= 0x55
-	firstFlate := []c13life{{"70K-text", s70, nil}, {"300B", s300, nil}, {"corrupt-70K", corrupt, nil}, {"truncated-70K", s70[:len(s70)*2/3], nil}}
+	stored70 := stdDeflate(text70, 0)
+	firstFlate := []c13life{{"70K-text", s70, nil}, {"300B", s300, nil}, {"corrupt-70K", corrupt, nil}, {"truncated-70K", s70[:len(s70)*2/3], nil},
+		// first lives that stop with every kind of carry-over state set: inside a dynamic header (header staging),
+		// inside a stored block (remaining length), inside the stored length field
+		{"cut-inside-dynamic-header", s70[:10], nil}, {"cut-inside-dynamic-header-40", s70[:40], nil}, {"stored-70K", stored70, nil},
+		{"cut-inside-stored-length", stored70[:3], nil}, {"cut-inside-stored-payload", stored70[:1000], nil}}
 	var secondFlate []namedStream
 	secondFlate = append(secondFlate, shortCorpus(g)...)
 	secondFlate = append(secondFlate, backrefStreams()...)
@@ -127,8 +132,15 @@ func c13Harness(cfg *Cfg) func(x *mc.Exec) {
 	}
 	mkSrc := func(data []byte, viaBufio int) io.Reader {
 		src := env.NewSource(data)
-		if viaBufio == 1 {
+		switch viaBufio {
+		case 1:
 			return bufio.NewReaderSize(src, 64)
+		case 2:
+			src.Chunk = 1 // one byte per call: every header is staged across refills
+			return src
+		case 3:
+			src.Chunk = 1
+			return bufio.NewReaderSize(src, 16)
 		}
 		return src
 	}
@@ -136,7 +148,7 @@ func c13Harness(cfg *Cfg) func(x *mc.Exec) {
 		kind := x.Choose(3, "kind")
 		hist := x.Choose(len(histories), "history")
 		pol := pols[x.Choose(len(pols), "read-policy")]
-		viaBufio := x.Choose(2, "second-source")
+		viaBufio := x.Choose(4, "second-source")
 		if hist != 0 {
 			x.NonTrivial()
 		}
@@ -159,6 +171,9 @@ func c13Harness(cfg *Cfg) func(x *mc.Exec) {
 			c13compare(x, "flate", fmt.Sprintf("flate first=%s history=%s second=%s policy=%s bufio=%d", f1.name, histories[hist], s2.name, pol.Name, viaBufio), histories[hist], got, want)
 		case 1: // gzip
 			c1 := gz[x.Choose(4, "first")]
+			if viaBufio >= 2 && len(c1.bytes) > 2000 {
+				return
+			}
 			c2 := gz[x.Choose(len(gz), "second")]
 			var zr *fgzip.Reader
 			var rerr error
